@@ -177,6 +177,22 @@ def run_case(ctx, cost, labels, blank, tag):
             ok = float(nl[p].max()) >= r1 - 1e-12 or float(nl[p, labels[i]]) >= r2 - 1e-12
             ctx.check(ok, "char_position_not_most_confident_frame",
                       lambda: "char %d at frame %d of frames %r; " % (i, p, frames) + desc())
+    if opt != INF and T <= 60:
+        # the caller's matrix buffer is re-used for the next line (same array object, new content): the result must be that
+        # of the new content
+        import zlib
+        rs2 = np.random.RandomState(zlib.crc32(np.ascontiguousarray(cost).tobytes()) % (2 ** 31))
+        cost2 = np.where(np.isfinite(cost), cost + rs2.uniform(0, 8, size=cost.shape), cost)
+        buf = cost.copy()
+        FA.align_text(buf, np.asarray(labels), blank)
+        FA.force_align(buf, list(labels), blank)
+        buf[...] = cost2
+        got_t = [int(x) for x in FA.align_text(buf, np.asarray(labels), blank)]
+        got_f = [int(x) for x in FA.force_align(buf, list(labels), blank)]
+        want_t = [int(x) for x in FA.align_text(cost2.copy(), np.asarray(labels), blank)]
+        want_f = [int(x) for x in FA.force_align(cost2.copy(), list(labels), blank)]
+        ctx.check(got_t == want_t and got_f == want_f, "result_for_a_reused_buffer_is_that_of_its_earlier_content",
+                  lambda: "align_text %r / %r, force_align %r / %r for the new content %s; " % (got_t, want_t, got_f, want_f, np.array2string(cost2, max_line_width=200)) + desc())
     if T > len(labels) and (n_align is None or n_align >= 2) and opt != INF:
         ctx.nontrivial((tag, cost.tobytes(), cost.shape, tuple(labels), blank),
                        sample="blank=%d labels=%r cost=%s" % (blank, labels, np.array2string(np.round(cost, 2), max_line_width=200)))
